@@ -88,7 +88,9 @@ class TranslatorC(Translator):
         if expr.size <= self.NATIVE_INT_MAX_SIZE:
             assert expr.size <= 64
             out = "0x%x" % int(expr)
-            if expr.size == 64:
+            if expr.size > 32:
+                # A bare literal is an int when it fits: operations between
+                # such literals would be computed on 32 bits
                 out += "ULL"
             return out
         value, int_size = int_size_to_bn(int(expr), expr.size)
